@@ -142,7 +142,8 @@ def unquote(
 # NOTE: to safely unquote we don't need to replace invalid character because it would
 # imply that the parsed url was invalid from the start (except for spaces)
 
-UNSAFE_FOR_AUTH_ITEM = b" %@:/?#"
+# NOTE: urlsplit takes a bracket found in the netloc for an IPv6 delimiter
+UNSAFE_FOR_AUTH_ITEM = b" %@:/?#[]"
 UNSAFE_FOR_PATH = b" %/?#"
 UNSAFE_FOR_QUERY_ITEM = b" %&=#"
 UNSAFE_FOR_FRAGMENT = b" %"
